@@ -175,6 +175,44 @@ theorem tl_layout_composite (S : Schema) :
   refine ⟨fun c fs d h => by simp [encode, h], fun t c fs d h => by simp [encode, h],
     fun t items h => by simp [encode, h], fun f ps d h => by simp [encodeRequest, h]⟩
 
+/-- the items of a vector are written one after the other, each as a value of the item type -/
+theorem tl_layout_items (S : Schema) (t : Ty) : ∀ (items : List Val) (b : Bytes), encodeItems S t items = some b →
+    ∃ parts : List Bytes, items.map (encode S t) = parts.map some ∧ b = parts.flatten := by
+  intro items
+  induction items with
+  | nil => intro b h; simp [encodeItems] at h; exact ⟨[], rfl, by simp [h]⟩
+  | cons v vs ih =>
+    intro b h
+    simp only [encodeItems] at h
+    cases hv : encode S t v with
+    | none => simp [hv] at h
+    | some p =>
+      simp only [hv] at h
+      obtain ⟨b2, hb2, rfl⟩ := map_append_eq_some h
+      obtain ⟨parts, hf, rfl⟩ := ih b2 hb2
+      exact ⟨p :: parts, by simp [hv, hf], by simp⟩
+
+/-- **tl_layout_vector**: `(vector T)` is the item count on 32 bits little-endian, then exactly that many items — for
+every count below 2³² (a longer list has no encoding); and a decoder that is told `count` reads back exactly the
+`count` items and leaves the rest (whatever the count: 0, 256, 257, 65536, …). -/
+theorem tl_layout_vector (S : Schema) (t : Ty) (items : List Val) :
+    (items.length < 2 ^ 32 → ∀ bs, encode S (.vector t) (.vec items) = some bs →
+      ∃ parts : List Bytes, items.map (encode S t) = parts.map some ∧ parts.length = items.length ∧
+        bs = le 4 items.length ++ parts.flatten) ∧
+    (2 ^ 32 ≤ items.length → encode S (.vector t) (.vec items) = none) ∧
+    (WFSchema S → ∀ bs rest fuel, encodeItems S t items = some bs → depthList items ≤ fuel →
+      decodeItems S fuel t items.length (bs ++ rest) = .ok (items, rest)) := by
+  refine ⟨fun hl bs h => ?_, fun hl => ?_, fun hwf bs rest fuel h hf => tl_items_decode_encode S hwf t items bs rest fuel h hf⟩
+  · simp only [encode, hl, if_true] at h
+    obtain ⟨b, hb, rfl⟩ := map_append_eq_some h
+    obtain ⟨parts, hf, rfl⟩ := tl_layout_items S t items b hb
+    have hlen : parts.length = items.length := by
+      have := congrArg List.length hf
+      simpa using this.symm
+    exact ⟨parts, hf, hlen, rfl⟩
+  · have : ¬ items.length < 2 ^ 32 := by omega
+    simp [encode, this]
+
 /-- all layout clauses together -/
 theorem tl_layout_facts (S : Schema) :
     (∀ w n, (le w n).length = w ∧ ∀ i, i < w → (le w n)[i]? = some (UInt8.ofNat (n / 256 ^ i % 256))) ∧
